@@ -13,6 +13,8 @@ VARIABLE m
 Matrices == UNION {[1..s[1] -> [1..s[2] -> Vals]] : s \in Shapes}
 
 SmallShapes == (1..3) \X (1..3)
+NegShapes == (1..2) \X (1..3) \cup {<<3, 2>>, <<3, 3>>}      \* with negative entries (a user-supplied similarity may return any number)
+NegVals == {-3, -1, 2}
 WideShapes == {<<1, 5>>, <<5, 2>>, <<4, 3>>, <<2, 4>>, <<6, 1>>}
 
 (* large matrices (more rows/columns than the inline capacity of the crate's small vectors),  *)
